@@ -425,6 +425,17 @@ fn base_document2(ctx: &mut Ctx, fl: Flavour, hs: u64) -> (Vec<u8>, &'static str
                 }
                 2 | 3 => (long_token_doc(&mut ctx.tape, fl), "long_token", 0),
                 4..=6 => (iri_stress_doc(&mut ctx.tape, fl), "iri_stress", 0),
+                7 => {
+                    // a tiny document: 0-3 bytes from the alphabet of byte-order marks, UTF-8
+                    // lead/continuation bytes and the first characters of every syntax
+                    const BYTES: &[u8] = &[
+                        0xEF, 0xBB, 0xBF, 0xFF, 0xFE, 0x00, 0x80, 0xC3, 0xE2, 0xF0, b'{', b'[', b'"', b'<',
+                        b'@', b'#', b'_', b'(', b'\\', b'&', b' ', b'\n', b'a', b'1',
+                    ];
+                    let n = ctx.tape.below(4);
+                    let d: Vec<u8> = (0..n).map(|_| BYTES[ctx.tape.below(BYTES.len())]).collect();
+                    (d, "tiny", 0)
+                }
                 _ => {
                     let c = corpus_for(fl);
                     (c[ctx.tape.below(c.len())].as_bytes().to_vec(), "corpus", 0)
@@ -435,6 +446,16 @@ fn base_document2(ctx: &mut Ctx, fl: Flavour, hs: u64) -> (Vec<u8>, &'static str
 }
 
 fn corrupt(ctx: &mut Ctx, doc: &mut Vec<u8>) {
+    if ctx.tape.chance(1, 12) {
+        // a byte-order mark in front of the document (common in files written on Windows);
+        // later edits - a truncation in particular - may cut inside it
+        let bom: &[u8] = [&[0xEF, 0xBB, 0xBF][..], &[0xFF, 0xFE][..], &[0xFE, 0xFF][..]][ctx.tape.below(3)];
+        let mut d = bom.to_vec();
+        d.extend_from_slice(doc);
+        *doc = d;
+        ctx.fault("doc_bom_prepended");
+        ev!(ctx, "prepend BOM {bom:?}");
+    }
     let n_edits = ctx.tape.below(4);
     for _ in 0..n_edits {
         if doc.is_empty() && ctx.tape.flag() {
@@ -455,6 +476,7 @@ fn corrupt(ctx: &mut Ctx, doc: &mut Vec<u8>) {
         match ctx.tape.draw(9) {
             0 => {}
             1 => {
+                let pos = if ctx.tape.chance(1, 6) { ctx.tape.below(4).min(pos) } else { pos };
                 doc.truncate(pos);
                 ctx.fault("doc_truncated");
                 ev!(ctx, "truncate at {pos}");
@@ -606,6 +628,7 @@ pub fn run_c08(ctx: &mut Ctx) -> Verdict {
         "foreign_corpus" => "doc_of_another_syntax",
         "deep_nesting" => "doc_deep_nesting",
         "iri_stress" => "doc_valid_text_around_random_iris",
+        "tiny" => "doc_tiny_byte_string",
         _ => "doc_long_token",
     });
     ctx.sig(origin);
